@@ -569,7 +569,10 @@ def make_rvs_body(case):
                 c = ch.choose(2, 'round%d.row%d' % (r, i)) if r < R else 0
                 ans.append(c)
             log['rounds'].append({'shape': list(xx.shape), 'rows': rows.copy(), 'answers': ans})
-            return np.where(np.array(ans, dtype=int) == 0, ACCEPT, -np.inf)
+            # an invalid point has a log density that is not finite: -inf (outside a support), or nan (what a joint density
+            # of a hierarchical prior gives when a proposed scale is negative) / +inf
+            rej = {'nan': np.nan, '+inf': np.inf}.get(case.get('reject'), -np.inf)
+            return np.where(np.array(ans, dtype=int) == 0, ACCEPT, rej)
 
         rs = CountingState(case['seed'])
         rs.limit = R + size + 3
@@ -871,6 +874,10 @@ def run(ctx):
                             for s in (seeds[:1] if (q and size == 4) else seeds):
                                 cases.append({'kind': 'rvs-tree', 'd': d, 'k': k, 'form': form, 'cov': cov, 'w': w,
                                               'size': size, 'rounds': R, 'seed': s})
+                            if size <= 3 and w is None:
+                                for rej in (('nan',) if q else ('nan', '+inf')):
+                                    cases.append({'kind': 'rvs-tree', 'd': d, 'k': k, 'form': form, 'cov': cov, 'w': w,
+                                                  'size': size, 'rounds': R, 'seed': seeds[0], 'reject': rej})
                         if not q and cov == covs[-1] and form == forms[0]:
                             cases.append({'kind': 'rvs-tree', 'd': d, 'k': k, 'form': form, 'cov': cov, 'w': w,
                                           'size': 5, 'rounds': R, 'seed': base})
@@ -939,7 +946,7 @@ def run(ctx):
         'rel 1e-9; points in {-1,0,0.5,2}^d so nothing underflows; only the number of returned values and their '
         'order are demanded, not the ndim of the result',
         'GM rvs: the constraint answers per row through the choice-point explorer (choice 0 = accept = finite '
-        'log-density -1.25, 1 = -inf); after R adversarial rounds every row is accepted (horizon of the retry '
+        'log-density -1.25, 1 = invalid: -inf, and in further trees nan / +inf); after R adversarial rounds every row is accepted (horizon of the retry '
         'loop); oracle = shape (size,)+point shape and the multiset of returned rows is contained in the multiset '
         'of accepted proposed rows (order not demanded); a random_state.choice call count > R+size+3 ends an '
         'execution as non-terminating',
